@@ -9,6 +9,7 @@ CONSTANTS
   InitSeq <- NoSeq
   InitPatterns = {}
   SolidInits = {}
+  GuessShifts = {1}
   GridProblems <- GP_All
   GridStates <- GS_All
   MaxChain = 2
